@@ -14,6 +14,7 @@ var propRunners = map[string]func(c *Checker){
 	"C15": runC15,
 	"C16": runC16,
 	"C17": runC17,
+	"C18": runC18,
 	"C19": runC19,
 	"C20": runC20,
 }
